@@ -37,9 +37,31 @@ from pylib.common import rng, use_repo
 ORD_KEYS = ["k1", "k2", "k3"]
 
 
-def make_source(mods, defs):
+TRIP = dict(armed=False, skip=0, exc=KeyboardInterrupt, fired=False)
+_trip_cls = []
+
+
+def trip_section(basics):
+    """A HardCodedConfigSection whose render_value can be made to fail once with a pass-through
+    exception (what a flaky / remote section, Ctrl-C or a RecursionError does to a collapse)."""
+    if not _trip_cls:
+        class TripSection(basics.DictConfigSection):
+            def render_value(self, central, name, arg_type):
+                if TRIP["armed"]:
+                    if TRIP["skip"] <= 0:
+                        TRIP["armed"], TRIP["fired"] = False, True
+                        raise TRIP["exc"]("injected while collapsing")
+                    TRIP["skip"] -= 1
+                return super().render_value(central, name, arg_type)
+
+        _trip_cls.append(TripSection)
+    return lambda d: _trip_cls[0](basics.convert_asis, d)
+
+
+def make_source(mods, defs, trippable=False):
     """defs of ONE source: [{name, src, inh, keys}] -> {name: ConfigSection}."""
     central, basics, errors, configurable = mods
+    section = trip_section(basics) if trippable else basics.HardCodedConfigSection
     out = {}
     for d in defs:
         sec = {}
@@ -56,7 +78,7 @@ def make_source(mods, defs):
                 sec["class"] = thing
             else:
                 sec[k] = tag
-        out[d["name"]] = basics.HardCodedConfigSection(sec)
+        out[d["name"]] = section(sec)
     return out
 
 
@@ -100,7 +122,8 @@ LIVE_BLANK = dict(ev="", root="-", defs=[], raised=False, outcome="-", vals=[])
 
 
 def run_live(mods, ops, keys):
-    """One live manager.  ops: [("init"|"add", defs) | ("read", name)] -> (events without tid/i, exceptions)."""
+    """One live manager.  ops: [("init"|"add", defs) | ("read", name) | ("abort", [name, skip, exception name])]
+    -> (events without tid/i, exceptions)."""
     central, basics, errors, configurable = mods
     evs, excs = [], []
     manager = None
@@ -111,13 +134,23 @@ def run_live(mods, ops, keys):
             e.update(ev=op, defs=[dict(name=d["name"], src=d["src"], inh=list(d["inh"]), keys=list(d["keys"])) for d in arg])
             try:
                 if op == "init":
-                    manager = central.ConfigManager([make_source(mods, arg)])
+                    manager = central.ConfigManager([make_source(mods, arg, True)])
                 else:
-                    manager.add_config_source(make_source(mods, arg))
+                    manager.add_config_source(make_source(mods, arg, True))
             except Exception as ex:  # the rest of the history is not judged
                 e["raised"], exc = True, f"{type(ex).__name__}: {ex}".replace("\n", " | ")
                 if op == "init":
                     raise tlc.MachineryError(f"cannot create a manager over {arg}: {exc}")
+        elif op == "abort":
+            name, skip, excname = arg
+            TRIP.update(armed=True, skip=skip, fired=False,
+                        exc=dict(KeyboardInterrupt=KeyboardInterrupt, RecursionError=RecursionError, MemoryError=MemoryError)[excname])
+            try:
+                manager.collapse_named_section(name)
+            except BaseException as ex:  # the injected exception (or an ordinary error before the injection point)
+                exc = f"{type(ex).__name__}: {ex}".replace("\n", " | ")
+            TRIP["armed"] = False
+            e.update(ev="abort", root=name, raised=TRIP["fired"])
         else:
             outcome, vals, exc = collapse(mods, manager, arg, keys)
             e.update(ev="read", root=arg, outcome=outcome, vals=vals)
@@ -133,6 +166,9 @@ def ops_of_hist(hist):
     for h in hist:
         if h["op"] == "read":
             ops.append(("read", h["name"]))
+            continue
+        if h["op"] == "abort":
+            ops.append(("abort", [h["name"], 0, "KeyboardInterrupt"]))
             continue
         src += 1
         defs = []
@@ -161,7 +197,10 @@ def random_history(r_):
 
     ops, nsrc = [("init", source(1, True))], 1
     for _ in range(r_.randint(3, 9)):
-        if nsrc < 4 and r_.random() < 0.3:
+        c = r_.random()
+        if c < 0.2:  # a collapse interrupted at its first .. fourth value lookup
+            ops.append(("abort", [r_.choice(names), r_.randint(0, 3), r_.choice(["KeyboardInterrupt", "RecursionError", "MemoryError"])]))
+        elif nsrc < 4 and c < 0.45:
             nsrc += 1
             ops.append(("add", source(nsrc, False)))
         else:
@@ -281,16 +320,21 @@ def run(ck):
             execute(random_cfg(r_), "a", ["class"] + ORD_KEYS)
         ck.sample(dict(direction="code->spec", defs=events[-1]["defs"], outcome=events[-1]["outcome"], vals=events[-1]["vals"]))
         # 4. one LIVE manager: collapse / add_config_source / collapse ...
-        def live_cfg(ops_, clear, emit):
+        def live_cfg(ops_, clear, emit, release=True):
             return (f'SPECIFICATION Spec\nCONSTANTS\n Names = {{"a", "b"}}\n KeySets <- KSk1\n MaxSources = 2\n MaxOps = {ops_}\n'
-                    f" ClearOnAdd = {'TRUE' if clear else 'FALSE'}\n EmitHist = {'TRUE' if emit else 'FALSE'}\n"
-                    "INVARIANT CacheCoherent\nINVARIANT ReadIsFresh\nINVARIANT Emit\n")
+                    f" ClearOnAdd = {'TRUE' if clear else 'FALSE'}\n ReleaseOnAbort = {'TRUE' if release else 'FALSE'}\n"
+                    f" EmitHist = {'TRUE' if emit else 'FALSE'}\n"
+                    "INVARIANT CacheCoherent\nINVARIANT ReadIsFresh\nINVARIANT GuardReleased\nINVARIANT Emit\n")
 
         if not ck.quick:
             bad = ck.mc("ConfigInherit_Live", cfg_text=live_cfg(3, False, False), workers=1, timeout=300, expect_ok=False,
                         label="MC:ConfigInherit_Live cache kept across add (must violate)")
             if bad.violated != "CacheCoherent":
                 raise tlc.MachineryError(f"the cache-keeping design was not rejected as expected: {bad.violated}")
+            bad = ck.mc("ConfigInherit_Live", cfg_text=live_cfg(3, True, False, release=False), workers=1, timeout=300, expect_ok=False,
+                        label="MC:ConfigInherit_Live guard kept after an aborted collapse (must violate)")
+            if bad.violated not in ("GuardReleased", "ReadIsFresh"):
+                raise tlc.MachineryError(f"the design that keeps the recursion guard was not rejected as expected: {bad.violated}")
         lo_ = ck.pick(3, 4)
         res = ck.mc("ConfigInherit_Live", cfg_text=live_cfg(lo_, True, True), workers=1, timeout=ck.pick(300, 1800),
                     label=f"MC+Histories:ConfigInherit_Live MaxOps={lo_}")
@@ -298,8 +342,11 @@ def run(ck):
         if len(hists) < 5000:
             raise tlc.MachineryError(f"only {len(hists)} histories enumerated\n{res.out[-1500:]}")
         ck.extra["live_histories_enumerated"] = len(hists)
-        # a seeded sample is replayed (quick: a third of the 3-operation histories; thorough: 20000 of the 4-operation ones)
-        hists = r_.sample(hists, min(len(hists), ck.pick(3000, 20000)))
+        # a seeded sample of each family is replayed (read..add..read; histories with an aborted collapse)
+        with_abort = [h for h in hists if any(x["op"] == "abort" for x in h)]
+        without = [h for h in hists if not any(x["op"] == "abort" for x in h)]
+        hists = (r_.sample(without, min(len(without), ck.pick(2500, 15000)))
+                 + r_.sample(with_abort, min(len(with_abort), ck.pick(1000, 10000))))
         ck.extra["live_histories_replayed"] = len(hists)
         for h in hists:
             execute_live(ops_of_hist(h), ["class", "k1"])
